@@ -375,6 +375,14 @@ def main(argv=None):
                     print("HARNESS-ERROR: replay of violating item raised")
                     traceback.print_exc()
                     return 2
+            if s not in c2.viol_counts and getattr(mod, "REPLAY_MATCH", "signature") == "entry":
+                # checks whose subject IS nondeterminism (C09): the failure kind is an attribution that may
+                # legitimately differ between two executions; the replay must reproduce a violation at the
+                # same entry point
+                pre = s.rsplit("|", 1)[0] + "|"
+                alt = [x for x in c2.viol_counts if x.startswith(pre)]
+                if alt:
+                    c2.viol_counts[s] = c2.viol_counts[alt[0]]
             if s not in c2.viol_counts:
                 print(f"HARNESS-ERROR: violation {s} did not reproduce on replay (nondeterministic harness)")
                 return 2
